@@ -17,9 +17,10 @@
 -/
 import BlocV.Model.World
 import BlocV.Proofs.C05
+import BlocV.Proofs.Lemmas.Interp
 
 namespace BlocV.C14
-open BlocV BlocV.World
+open BlocV BlocV.World BlocV.Lemmas
 
 /-! ### the list of shared cells is covered -/
 
@@ -168,6 +169,11 @@ theorem footprint (w : World) (op : Op) :
     · exact ⟨rfl, rfl, fun d hd => upd_other _ _ _ _ hd, fun _ _ => rfl⟩
   | free c =>
     exact ⟨rfl, rfl, fun d hd => upd_other _ _ _ _ hd, fun _ _ => rfl⟩
+  | host c h =>
+    simp only [apply]
+    split
+    · exact ⟨rfl, rfl, fun _ _ => rfl, fun _ _ => rfl⟩
+    · exact ⟨rfl, rfl, fun d hd => upd_other _ _ _ _ hd, fun _ _ => rfl⟩
 
 /-- The statement step, as the task states it: a step of context `c` writes only `c`'s own state and
 the listed shared cells. -/
@@ -220,6 +226,12 @@ theorem reads_footprint (w w' : World) (op : Op)
     · simp [upd_same]
   | free c =>
     simp [apply, Op.target, upd_same]
+  | host c h =>
+    simp only [Op.target] at ht
+    simp only [apply, Op.target, ← ht]
+    split
+    · exact ht
+    · simp [upd_same]
 
 /-! ### commutation -/
 
@@ -441,6 +453,16 @@ def refLevel (b : Nat) (progs : List (List Stmt)) : StmtRef → Nat
 def LevelInv (b : Nat) (progs : List (List Stmt)) (log : List (StmtRef × Nat)) : Prop :=
   ∀ r v, (r, v) ∈ log → v = refLevel b progs r
 
+theorem stepOutcome_levels (ctx : Ctx) (lw : List (StmtRef × Nat)) (r : Res Flow × St) :
+    (stepOutcome ctx lw r).2.1 = lw := by
+  unfold stepOutcome
+  split <;> rfl
+
+theorem stepOutcome_execLevel (ctx : Ctx) (lw : List (StmtRef × Nat)) (r : Res Flow × St) :
+    (stepOutcome ctx lw r).1.execLevel = ctx.execLevel := by
+  unfold stepOutcome
+  split <;> rfl
+
 theorem stepCtx_levels (progs : List (List Stmt)) (fuel : Nat) (ctx : Ctx) (r : StmtRef) (v : Nat)
     (h : (r, v) ∈ (stepCtx progs fuel ctx).2.1) : v = refLevel ctx.execLevel progs r := by
   unfold stepCtx at h
@@ -448,22 +470,40 @@ theorem stepCtx_levels (progs : List (List Stmt)) (fuel : Nat) (ctx : Ctx) (r : 
   · simp at h
   · split at h
     · simp at h
-    · rename_i stmt hstmt
-      have hmem : (r, v) ∈ stmtLevelWrites ctx.prog ctx.pc ctx.execLevel stmt ++ (ctx.funcs.map funcLevelWrites).flatten := by
-        split at h <;> exact h
-      rcases List.mem_append.mp hmem with hm | hm
-      · simp only [stmtLevelWrites, List.mem_map] at hm
-        obtain ⟨rel, _, he⟩ := hm
-        cases he
-        simp only [refLevel]
-        rw [hstmt]
-      · simp only [List.mem_flatten, List.mem_map] at hm
-        obtain ⟨l, ⟨f, _, hl⟩, hin⟩ := hm
-        subst hl
-        simp only [funcLevelWrites, List.mem_map] at hin
-        obtain ⟨rel, _, he⟩ := hin
-        cases he
-        simp [refLevel]
+    · split at h
+      · rw [stepOutcome_levels] at h; simp at h
+      · split at h
+        · simp at h
+        · rename_i stmt hstmt
+          split at h
+          · rw [stepOutcome_levels] at h; simp at h
+          rw [stepOutcome_levels] at h
+          rcases List.mem_append.mp h with hm | hm
+          · simp only [stmtLevelWrites, List.mem_map] at hm
+            obtain ⟨rel, _, he⟩ := hm
+            cases he
+            simp only [refLevel]
+            rw [hstmt]
+          · simp only [List.mem_flatten, List.mem_map] at hm
+            obtain ⟨l, ⟨f, _, hl⟩, hin⟩ := hm
+            subst hl
+            simp only [funcLevelWrites, List.mem_map] at hin
+            obtain ⟨rel, _, he⟩ := hin
+            cases he
+            simp [refLevel]
+
+theorem stepCtx_execLevel (progs : List (List Stmt)) (fuel : Nat) (ctx : Ctx) :
+    (stepCtx progs fuel ctx).1.execLevel = ctx.execLevel := by
+  unfold stepCtx
+  split
+  · rfl
+  · split
+    · rfl
+    · split
+      · rw [stepOutcome_execLevel]
+      · split
+        · rfl
+        · split <;> rw [stepOutcome_execLevel]
 
 /-- every live context starts its runs at exec level `b` -/
 def SameBase (b : Nat) (w : World) : Prop := ∀ c x, w.ctxs c = some x → x.execLevel = b
@@ -493,13 +533,8 @@ theorem sameBase_apply (w : World) (op : Op) (h : SameBase 0 w) : SameBase 0 (ap
       · rename_i ctx hc
         dsimp only at hx; rw [upd_same] at hx
         cases hx
-        have := h c ctx hc
-        unfold stepCtx
-        split
-        · exact this
-        · split
-          · exact this
-          · split <;> exact this
+        rw [stepCtx_execLevel]
+        exact h c ctx hc
     | clone s d =>
       simp only [apply, Op.target] at hx
       split at hx
@@ -513,6 +548,13 @@ theorem sameBase_apply (w : World) (op : Op) (h : SameBase 0 w) : SameBase 0 (ap
     | free c =>
       simp only [apply, Op.target] at hx; rw [upd_same] at hx
       cases hx
+    | host c hc' =>
+      simp only [apply, Op.target] at hx
+      split at hx
+      · exact h _ _ hx
+      · rename_i ctx hc; dsimp only at hx; rw [upd_same] at hx; cases hx
+        have := h c ctx hc
+        cases hc' <;> exact this
   · rw [(footprint w op).2.2.1 e he] at hx
     exact h _ _ hx
 
@@ -543,17 +585,17 @@ theorem level_writes_benign (ops : List Op) : ∀ (w : World) (log0 : List (Stmt
         · rename_i ctx hc
           have hlv : ∀ (sh : Shared) code arg, recordError sh code arg .stmtLevel = sh .stmtLevel :=
             fun sh code arg => recordError_other sh code arg _ (by decide)
-          refine ⟨log0 ++ (stepCtx w.progs w.fuel ctx).2.1, ?_, ?_⟩
+          refine ⟨(stepCtx w.progs w.fuel ctx).2.1 ++ log0, ?_, ?_⟩
           · dsimp only
             split
             · rw [hlv]; simp [appendLevels, hs, updShared]
             · simp [appendLevels, hs, updShared]
           · intro r v hm
             rcases List.mem_append.mp hm with hm | hm
-            · exact hi r v hm
             · have := stepCtx_levels w.progs w.fuel ctx r v hm
               rw [hb c ctx hc] at this
               exact this
+            · exact hi r v hm
       | compile c pid => simp only [apply]; split <;> exact ⟨log0, hs, hi⟩
       | start c pid =>
         simp only [apply]
@@ -565,6 +607,7 @@ theorem level_writes_benign (ops : List Op) : ∀ (w : World) (log0 : List (Stmt
       | clone s d => simp only [apply]; split <;> exact ⟨log0, hs, hi⟩
       | purge c => simp only [apply]; split <;> exact ⟨log0, hs, hi⟩
       | free c => exact ⟨log0, hs, hi⟩
+      | host c h => simp only [apply]; split <;> exact ⟨log0, hs, hi⟩
     obtain ⟨log1, hs1, hi1⟩ := this
     have := ih (apply w op) log1 hb' hs1 (by rw [hp]; exact hi1)
     rw [hp] at this
@@ -607,7 +650,7 @@ example :
       ctxs := fun c => if c = 0 then some { running := true, execLevel := 1 } else if c = 1 then some { running := true } else none }
     (match (run w [.step 0, .step 1]).shared .stmtLevel with
      | .levels log => log.map (·.2)
-     | _ => []) = [1, 0] := by
+     | _ => []) = [0, 1] := by
   decide +kernel
 
 /-- **The error record is NOT benign** (finding C14.error_record_process_wide): `bloc_error` is a
@@ -692,6 +735,1366 @@ example :
     (recordedCode w', (w'.ctxs 0).map fun x => (x.running, returnedVal x (.int 1), x.whatBuf.map (·.1))) =
       (some Gen.EXC_RT_USER_S, some (false, false, some Gen.EXC_RT_USER_S)) := by
   decide +kernel
+
+/-! ### the function table: what `clone` copies, and why order and completeness matter -/
+
+theorem sameSig_iff (f g : Func) : sameSig f g = true ↔ sigOf f = sigOf g := by
+  simp [sameSig, sigOf]
+
+theorem sigs_addFunc (fs : List Func) (f : Func) :
+    sigs (addFunc fs f) = if sigOf f ∈ sigs fs then sigs fs else sigs fs ++ [sigOf f] := by
+  unfold addFunc
+  by_cases h : fs.any (sameSig f) = true
+  · have hm : sigOf f ∈ sigs fs := by
+      obtain ⟨g, hg, hs⟩ := List.any_eq_true.mp h
+      exact List.mem_map.mpr ⟨g, hg, ((sameSig_iff f g).mp hs).symm⟩
+    rw [if_pos h, if_pos hm]
+    simp only [sigs, List.map_map]
+    apply List.map_congr_left
+    intro g _
+    by_cases hs : sameSig f g = true
+    · simp [hs, (sameSig_iff f g).mp hs]
+    · simp [hs]
+  · have hm : sigOf f ∉ sigs fs := by
+      intro hm
+      obtain ⟨g, hg, hs⟩ := List.mem_map.mp hm
+      exact h (List.any_eq_true.mpr ⟨g, hg, (sameSig_iff f g).mpr hs.symm⟩)
+    rw [if_neg h, if_neg hm]
+    simp [sigs]
+
+/-- `createOrReplace` never moves or removes an entry: the old table's signatures are the start of
+the new table's, position by position. -/
+theorem sigs_addFunc_prefix (fs : List Func) (f : Func) : sigs fs <+: sigs (addFunc fs f) := by
+  rw [sigs_addFunc]
+  split
+  · exact List.prefix_refl _
+  · exact List.prefix_append _ _
+
+theorem nodup_sigs_addFunc (fs : List Func) (f : Func) (h : (sigs fs).Nodup) : (sigs (addFunc fs f)).Nodup := by
+  rw [sigs_addFunc]
+  split
+  · exact h
+  · rename_i hm
+    rw [List.nodup_append]
+    refine ⟨h, by simp, ?_⟩
+    intro a ha b hb
+    simp only [List.mem_singleton] at hb
+    subst hb
+    intro e
+    exact hm (e ▸ ha)
+
+theorem declare_cons (fs : List Func) (st : Stmt) (prog : List Stmt) :
+    declare fs (st :: prog) = declare (declare fs [st]) prog := by
+  simp [declare]
+
+theorem sigs_declare_one (fs : List Func) (st : Stmt) :
+    sigs fs <+: sigs (declare fs [st]) ∧ ((sigs fs).Nodup → (sigs (declare fs [st])).Nodup) := by
+  cases st <;> simp only [declare, List.foldl_cons, List.foldl_nil] <;>
+    first
+    | exact ⟨List.prefix_refl _, id⟩
+    | exact ⟨sigs_addFunc_prefix _ _, nodup_sigs_addFunc _ _⟩
+
+/-- Compiling a program into a context (`Parser::parse`: `createOrReplace` per declaration) keeps
+every executable and every function body that was linked against the old table linked: positions are
+stable — a redefinition replaces in place, a new (name, arity) — an OVERLOAD included — is appended. -/
+theorem sigs_declare_prefix (prog : List Stmt) : ∀ fs : List Func, sigs fs <+: sigs (declare fs prog) := by
+  induction prog with
+  | nil => intro fs; exact List.prefix_refl _
+  | cons st prog ih =>
+    intro fs
+    rw [declare_cons]
+    exact List.IsPrefix.trans (sigs_declare_one fs st).1 (ih _)
+
+/-- … and the table never holds a signature twice. -/
+theorem nodup_sigs_declare (prog : List Stmt) : ∀ fs : List Func, (sigs fs).Nodup → (sigs (declare fs prog)).Nodup := by
+  induction prog with
+  | nil => intro fs h; exact h
+  | cons st prog ih =>
+    intro fs h
+    rw [declare_cons]
+    exact ih _ ((sigs_declare_one fs st).2 h)
+
+theorem linked_iff (l : List Sig) (fs : List Func) : linked l fs = true ↔ l <+: sigs fs := by
+  simp [linked, List.isPrefixOf_iff_prefix]
+
+theorem linked_declare (l : List Sig) (fs : List Func) (prog : List Stmt) (h : linked l fs = true) :
+    linked l (declare fs prog) = true :=
+  (linked_iff _ _).mpr (List.IsPrefix.trans ((linked_iff _ _).mp h) (sigs_declare_prefix prog fs))
+
+theorem find_by_sig (fs : List Func) (nd : (sigs fs).Nodup) : ∀ (i : Nat) (h : i < fs.length),
+    fs.find? (fun f => sigOf f == sigOf fs[i]) = some fs[i] := by
+  induction fs with
+  | nil => intro i h; simp at h
+  | cons g r ih =>
+    intro i h
+    have nd' : sigOf g ∉ sigs r ∧ (sigs r).Nodup := by simpa [sigs] using nd
+    cases i with
+    | zero => simp
+    | succ j =>
+      have hj : j < r.length := by simpa using h
+      have hne : (sigOf g == sigOf r[j]) = false := by
+        apply beq_false_of_ne
+        intro e
+        exact nd'.1 (e ▸ List.mem_map.mpr ⟨r[j], List.getElem_mem hj, rfl⟩)
+      simp only [List.getElem_cons_succ, List.find?_cons, hne]
+      exact ih nd'.2 j hj
+
+/-- **index_call_eq_name_call.** A call node compiled against a table with signatures `l` holds the
+index of (name, arity) in `l`. Run in ANY context whose table continues `l` position by position and
+holds each signature once, the entry at that index (what the C++ calls: `getDeclaration(_id)`) is the
+first entry with that name and arity (what `callFunc` of Model/Interp.lean calls). So for linked runs
+the by-name semantics of the model is the by-index semantics of the code. -/
+theorem index_call_eq_name_call (l : List Sig) (fs : List Func) (name : String) (arity : Nat)
+    (hl : linked l fs = true) (nd : (sigs fs).Nodup) (hm : (name, arity) ∈ l) :
+    callByIndex l fs name arity = callByName fs name arity := by
+  obtain ⟨t, ht⟩ := (linked_iff l fs).mp hl
+  have hlt := List.idxOf_lt_length_of_mem hm
+  have hfl : l.idxOf (name, arity) < fs.length := by
+    have : (sigs fs).length = fs.length := by simp [sigs]
+    rw [← this, ← ht, List.length_append]; omega
+  have hsig : sigOf fs[l.idxOf (name, arity)] = (name, arity) := by
+    have h1 : (sigs fs)[l.idxOf (name, arity)]? = some (name, arity) := by
+      rw [← ht, List.getElem?_append_left hlt, List.getElem?_eq_getElem hlt, List.getElem_idxOf]
+    simp only [sigs, List.getElem?_map, List.getElem?_eq_getElem hfl, Option.map_some] at h1
+    exact Option.some.inj h1
+  have hfind := find_by_sig fs nd _ hfl
+  rw [hsig] at hfind
+  have hi : l.idxOf? (name, arity) = some (l.idxOf (name, arity)) := by
+    simp [List.idxOf?, List.idxOf, List.findIdx?_eq_some_of_exists, hm]
+  unfold callByIndex callByName
+  rw [hi]
+  simp only [List.getElem?_eq_getElem hfl]
+  rw [← hfind]
+  congr 1
+
+/-- non-vacuity: three overloads of AREA and a function declared after them; a call of AREA/2 compiled
+against that table finds AREA/2 in a table that went on growing -/
+def overProg : List Stmt :=
+  [.funcS "AREA" [] Ty.int [.returnS (some (.lit (.int 1)))] [],
+   .funcS "AREA" [("W", Ty.int)] Ty.int [.returnS (some (.bin .mul (.var "W") (.var "W")))] [],
+   .funcS "AREA" [("W", Ty.int), ("H", Ty.int)] Ty.int [.returnS (some (.bin .mul (.var "W") (.var "H")))] [],
+   .funcS "G" [("X", Ty.int)] Ty.int [.returnS (some (.bin .add (.fcall "AREA" [.var "X", .lit (.int 5)]) (.fcall "AREA" [])))] [],
+   .letS "Q" (.fcall "G" [.lit (.int 2)]),
+   .returnS (some (.var "Q"))]
+
+example : sigs (declare [] overProg) = [("AREA", 0), ("AREA", 1), ("AREA", 2), ("G", 1)] ∧
+    linked (sigs (declare [] overProg)) (declare (declare [] overProg) demoProg) = true ∧
+    (callByIndex (sigs (declare [] overProg)) (declare (declare [] overProg) demoProg) "AREA" 2).map sigOf = some ("AREA", 2) := by
+  decide +kernel
+
+/-- **clone_copies_functions.** After `clone src dst` the clone's function table IS the original's:
+same length, the same declaration (name, parameters — hence arity —, return type, body, handlers,
+private symbols) at EVERY index, overloads included, in the same order. Consequently (i) every
+executable and function body linked against the original's table is linked against the clone's, (ii) a
+call node (index `i`) reaches the same function in both, and (iii) so does the model's lookup by name
+and arity. -/
+theorem clone_copies_functions (w : World) (src dst : CtxId) (s : Ctx) (h : w.ctxs src = some s) :
+    ∃ d, (apply w (.clone src dst)).ctxs dst = some d ∧
+      d.funcs.length = s.funcs.length ∧ (∀ i : Nat, d.funcs[i]? = s.funcs[i]?) ∧
+      (∀ l, linked l d.funcs = linked l s.funcs) ∧
+      (∀ l name arity, callByIndex l d.funcs name arity = callByIndex l s.funcs name arity) ∧
+      (∀ name arity, callByName d.funcs name arity = callByName s.funcs name arity) := by
+  obtain ⟨⟨d, hd, _, hf, _⟩, _⟩ := clone_copies w src dst s h
+  exact ⟨d, hd, by rw [hf], fun i => by rw [hf], fun l => by rw [hf], fun l n a => by rw [hf], fun n a => by rw [hf]⟩
+
+/-- non-vacuity, and the table really has overloads: the clone of a context that compiled `overProg`
+has AREA/0, AREA/1, AREA/2, G/1 at indices 0..3 -/
+example : ((run (initWorld [overProg] 50) [.compile 0 0, .clone 0 1]).ctxs 1).map (fun c => sigs c.funcs) =
+    some [("AREA", 0), ("AREA", 1), ("AREA", 2), ("G", 1)] := by
+  decide +kernel
+
+/-- Why "every declaration, in order" is what must be proved — the counter-model. With the table copy
+of seeded mutation C14-m3 (skip a declaration whose NAME is already there) the clone of `overProg`'s
+context loses AREA/1 and AREA/2, G moves from index 3 to index 1, the table is no longer linked, and
+the call node `AREA(x, 5)` (index 2) reaches nothing while `G(2)` (index 3) is past the end. -/
+theorem reset_skipping_names_is_not_a_copy :
+    let fs := declare [] overProg
+    let bad := resetSkippingNames fs
+    sigs bad = [("AREA", 0), ("G", 1)] ∧ linked (sigs fs) bad = false ∧
+    (callByIndex (sigs fs) bad "AREA" 1).map sigOf = some ("G", 1) ∧
+    callByIndex (sigs fs) bad "AREA" 2 = none ∧ callByIndex (sigs fs) bad "G" 1 = none ∧
+    (callByIndex (sigs fs) fs "AREA" 2).map sigOf = some ("AREA", 2) := by
+  decide +kernel
+
+/-- the instrumentation of `LWorld` does not change the world -/
+theorem applyL_world (lw : LWorld) (op : Op) : (applyL lw op).w = apply lw.w op := by
+  unfold applyL
+  cases op <;> dsimp only <;> (repeat' split) <;> rfl
+
+theorem runL_world (ops : List Op) : ∀ lw : LWorld, (runL lw ops).w = run lw.w ops := by
+  induction ops with
+  | nil => intro lw; rfl
+  | cons op ops ih =>
+    intro lw
+    show (runL (applyL lw op) ops).w = run (apply lw.w op) ops
+    rw [ih, applyL_world]
+
+theorem isPrefixOf_self {α} [BEq α] [LawfulBEq α] (l : List α) : l.isPrefixOf l = true := by
+  induction l with
+  | nil => rfl
+  | cons a l ih => simp [List.isPrefixOf, ih]
+
+/-- **clone_keeps_linked.** Whatever executable is linked in the source — its compile-time function
+table `l` and symbol table `lv` are continued by the source's — is linked in the clone. -/
+theorem clone_keeps_linked (w : World) (src dst : CtxId) (s : Ctx) (h : w.ctxs src = some s)
+    (l : List Sig) (lv : List String) (hl : linked l s.funcs = true) (hv : symLinked lv s.st.vars = true) :
+    ∃ d, (apply w (.clone src dst)).ctxs dst = some d ∧ linked l d.funcs = true ∧ symLinked lv d.st.vars = true := by
+  obtain ⟨⟨d, hd, hvars, hf, _⟩, _⟩ := clone_copies w src dst s h
+  exact ⟨d, hd, by rw [hf]; exact hl, by rw [hvars]; exact hv⟩
+
+example : ∃ d, (apply demoWorld (.clone 0 5)).ctxs 5 = some d ∧ linked [("F", 1)] d.funcs = true ∧ symLinked ["X", "Y"] d.st.vars = true :=
+  clone_keeps_linked demoWorld 0 5 _ rfl _ _ (by decide) (by decide)
+
+/-- The documented use is linked, for EVERY program: compile in the original, clone, run the shared
+executable in the clone (and in the original) — the instrumentation flag stays true. -/
+theorem shared_executable_linked (progs : List (List Stmt)) (fuel pid : Nat) (d : CtxId) :
+    (runL (initLWorld progs fuel) [.compile 0 pid, .clone 0 d, .start d pid, .start 0 pid]).linkedAll = true := by
+  by_cases hd : d = 0
+  · subst hd
+    simp [runL, applyL, apply, initLWorld, initWorld, upd, cloneCtx, linked, symLinked, isPrefixOf_self]
+  · simp [runL, applyL, apply, initLWorld, initWorld, upd, cloneCtx, linked, symLinked, isPrefixOf_self, Ne.symm hd]
+
+example : (runL (initLWorld [overProg] 50) [.compile 0 0, .clone 0 3, .start 3 0, .start 0 0]).linkedAll = true :=
+  shared_executable_linked _ _ _ _
+
+theorem symLinked_iff (l : List String) (vars : List (String × Val)) : symLinked l vars = true ↔ l <+: vars.map (·.1) := by
+  simp [symLinked, List.isPrefixOf_iff_prefix]
+
+theorem names_register_prefix (decls : List (String × Ty)) : ∀ vars : List (String × Val),
+    vars.map (·.1) <+: (decls.foldl (fun vs (n, t) => if vs.any (·.1 == n) then vs else vs ++ [(n, Val.null t)]) vars).map (·.1) := by
+  induction decls with
+  | nil => intro vars; exact List.prefix_refl _
+  | cons d ds ih =>
+    intro vars
+    simp only [List.foldl_cons]
+    split
+    · exact ih vars
+    · refine List.IsPrefix.trans ?_ (ih _)
+      simp
+
+/-- **Compiling keeps symbol slots in place**: `registerSymbol` appends new symbols to the storage pool and
+never moves one — an executable whose compile-time symbol table the context continues is still linked
+after the context compiled any further program (the symbol-slot counterpart of `linked_declare`). -/
+theorem symLinked_compile (w : World) (c : CtxId) (pid : Nat) (x : Ctx) (lv : List String) (hx : w.ctxs c = some x)
+    (hl : symLinked lv x.st.vars = true) :
+    ∃ y, (apply w (.compile c pid)).ctxs c = some y ∧ symLinked lv y.st.vars = true := by
+  simp only [apply, hx, upd_same]
+  refine ⟨_, rfl, ?_⟩
+  rw [symLinked_iff] at hl ⊢
+  exact List.IsPrefix.trans hl (names_register_prefix _ _)
+
+example : ((apply demoWorld (.compile 1 0)).ctxs 1).map (fun y => symLinked ["X", "Y"] y.st.vars) = some true := by
+  decide +kernel
+
+/-- A context is linked to what it compiled itself: `compile c pid` then `start c pid` leaves the flag as
+it was, for every world, context and program. -/
+theorem own_executable_linked (lw : LWorld) (c : CtxId) (pid : Nat) (x : Ctx) (hx : lw.w.ctxs c = some x) :
+    (runL lw [.compile c pid, .start c pid]).linkedAll = lw.linkedAll := by
+  simp [runL, applyL, apply, hx, upd, linked, symLinked, isPrefixOf_self]
+
+example : (runL (initLWorld [overProg, demoProg] 50) [.compile 0 0, .clone 0 1, .compile 1 1, .start 1 1]).linkedAll = true := by
+  decide +kernel
+
+/-- What the flag means at a `start`: the executable's compile-time function table and symbol table are
+continued by the running context's — so (`reachable_index_call_eq_name_call`) every call node of the
+executable reaches, by index, the function the model reaches by name. -/
+theorem linkedAll_start (lw : LWorld) (c : CtxId) (pid : Nat) (x : Ctx) (l : List Sig × List String)
+    (hx : lw.w.ctxs c = some x) (hl : lw.link pid = some l) (h : (applyL lw (.start c pid)).linkedAll = true) :
+    lw.linkedAll = true ∧ linked l.1 x.funcs = true ∧ symLinked l.2 x.st.vars = true := by
+  simp only [applyL, hx, hl, Bool.and_eq_true] at h
+  exact ⟨h.1.1, h.1.2, h.2⟩
+
+example : (applyL (runL (initLWorld [overProg] 50) [.compile 0 0, .clone 0 3]) (.start 3 0)).linkedAll = true := by
+  decide +kernel
+
+/-- non-vacuity of the flag: the shared executable compiled in the original is linked in the clone;
+after the ORIGINAL declared one more function and compiled a second program against the longer table,
+that second executable is NOT linked in the old clone (index 4 does not exist there) -/
+example :
+    (runL (initLWorld [overProg, demoProg] 50) [.compile 0 0, .clone 0 1, .start 1 0]).linkedAll = true ∧
+    (runL (initLWorld [overProg, demoProg] 50) [.compile 0 0, .clone 0 1, .compile 0 1, .start 1 1]).linkedAll = false ∧
+    (runL (initLWorld [overProg, demoProg] 50) [.compile 0 0, .clone 0 1, .compile 0 1, .start 0 1, .start 1 0]).linkedAll = true := by
+  decide +kernel
+
+/-! ### independence after the clone: declarations, stop condition, purge -/
+
+/-- The general insertion lemma behind `purge_free_independent`: operations that do not target `c`
+(and do not clone into it), inserted ANYWHERE into ANY sequence, change nothing for `c`. -/
+theorem others_ops_independent (w : World) (pre mid post : List Op) (c : CtxId)
+    (hno : ∀ s, Op.clone s c ∉ pre ++ post) (hmid : ∀ op ∈ mid, op.target ≠ c) :
+    (run w (pre ++ mid ++ post)).ctxs c = (run w (pre ++ post)).ctxs c := by
+  have hcl : ∀ s, Op.clone s c ∉ mid := fun s hm => hmid _ hm rfl
+  have hno2 : ∀ s, Op.clone s c ∉ pre ++ mid ++ post := by
+    intro s hm
+    simp only [List.mem_append] at hm
+    rcases hm with (hm | hm) | hm
+    · exact hno s (List.mem_append_left _ hm)
+    · exact hcl s hm
+    · exact hno s (List.mem_append_right _ hm)
+  have a := projection c (pre ++ mid ++ post) hno2 w w (agree_refl c w)
+  have b := projection c (pre ++ post) hno w w (agree_refl c w)
+  have hmf : mid.filter (fun op => op.target == c) = [] := by
+    apply List.filter_eq_nil_iff.mpr
+    intro op hop
+    simpa using hmid op hop
+  have : (pre ++ mid ++ post).filter (fun op => op.target == c) = (pre ++ post).filter (fun op => op.target == c) := by
+    simp only [List.filter_append, hmf, List.append_nil]
+  rw [this] at a
+  exact a.1.trans b.1.symm
+
+/-- non-vacuity: a compile and a break of context 0 inserted into clone 1's run of `demoProg` -/
+example : (run demoWorld ([.start 1 0, .step 1] ++ [.compile 0 0, .host 0 .brk] ++ [.step 1, .step 1, .step 1, .step 1])).ctxs 1 =
+    (run demoWorld ([.start 1 0, .step 1] ++ [.step 1, .step 1, .step 1, .step 1])).ctxs 1 :=
+  others_ops_independent demoWorld _ _ _ 1 (by intro s hm; simp at hm) (by decide)
+
+/-- **clone_independent_functions.** After `clone src dst` (src ≠ dst), whatever is compiled into
+ONE of the two — new functions, more overloads, REDEFINITIONS of functions the other one uses — and
+whatever else is done to it (`ops`, all targeting that one), the OTHER one keeps exactly the table it
+had: the clone keeps the old body after the original redefined the function, and the original keeps
+its own after the clone did. (The C++ shares the `Functor` objects between the two tables, but a
+redefinition swaps a NEW object into the redefining table's entry — `createOrReplace` — and never
+writes through the shared pointer.) -/
+theorem clone_independent_functions (w : World) (src dst : CtxId) (s : Ctx) (hne : src ≠ dst)
+    (h : w.ctxs src = some s) (ops : List Op) :
+    -- the original goes on: the clone keeps what it copied
+    ((∀ op ∈ ops, op.target = src) →
+      ((run (apply w (.clone src dst)) ops).ctxs dst).map (·.funcs) = some s.funcs) ∧
+    -- the clone goes on: the original keeps what it had
+    ((∀ op ∈ ops, op.target = dst) →
+      (run (apply w (.clone src dst)) ops).ctxs src = some s) := by
+  obtain ⟨⟨d, hd, _, hf, _⟩, hoth, _⟩ := clone_copies w src dst s h
+  constructor
+  · intro hops
+    have := others_ops_independent (apply w (.clone src dst)) [] ops [] dst (by simp)
+      (fun op hop => by rw [hops op hop]; exact hne)
+    simp only [List.nil_append, List.append_nil] at this
+    rw [this]
+    show ((apply w (.clone src dst)).ctxs dst).map (·.funcs) = some s.funcs
+    rw [hd, Option.map_some, hf]
+  · intro hops
+    have := others_ops_independent (apply w (.clone src dst)) [] ops [] src (by simp)
+      (fun op hop => by rw [hops op hop]; exact Ne.symm hne)
+    simp only [List.nil_append, List.append_nil] at this
+    rw [this]
+    show (apply w (.clone src dst)).ctxs src = some s
+    rw [hoth src hne, h]
+
+/-- a program that REDEFINES `F` of `demoProg` (other body) and adds an overload `F/2` -/
+def redefProg : List Stmt :=
+  [.funcS "F" [("P", Ty.int)] Ty.int [.returnS (some (.bin .mul (.var "P") (.lit (.int 100))))] [],
+   .funcS "F" [("P", Ty.int), ("Q", Ty.int)] Ty.int [.returnS (some (.var "Q"))] [],
+   .letS "Y" (.fcall "F" [.lit (.int 5)])]
+
+/-- non-vacuity, both directions, by running: the original redefines F after the clone was taken — the
+clone still computes F(5) = 6 with the OLD body, the original 500; and vice versa -/
+example :
+    let w := run (initWorld [demoProg, redefProg] 50) [.compile 0 0, .clone 0 1, .compile 0 1, .start 0 1, .start 1 0]
+    let w' := run w [.step 0, .step 1, .step 0, .step 1, .step 0, .step 1, .step 0, .step 1, .step 1]
+    ((w'.ctxs 0).map fun c => (lookupVar c.st.vars "Y" == .int 500, sigs c.funcs)) = some (true, [("F", 1), ("F", 2)]) ∧
+    ((w'.ctxs 1).map fun c => (lookupVar c.st.vars "Y" == .int 6, sigs c.funcs)) = some (true, [("F", 1)]) := by
+  decide +kernel
+
+example :
+    let w := run (initWorld [demoProg, redefProg] 50) [.compile 0 0, .clone 0 1, .compile 1 1, .start 1 1, .start 0 0]
+    let w' := run w [.step 0, .step 1, .step 0, .step 1, .step 0, .step 1, .step 0, .step 1, .step 0]
+    ((w'.ctxs 1).map fun c => (lookupVar c.st.vars "Y" == .int 500, sigs c.funcs)) = some (true, [("F", 1), ("F", 2)]) ∧
+    ((w'.ctxs 0).map fun c => (lookupVar c.st.vars "Y" == .int 6, sigs c.funcs)) = some (true, [("F", 1)]) := by
+  decide +kernel
+
+/-- **clone_stop_independent.** The stop condition (`_returnCondition` of the root: set by a top-level
+`return` or by `bloc_break`, cleared by `bloc_reset_stop`) is per context:
+(1) a clone never inherits it — cloned from an original with a PENDING return / break it starts clear,
+    with no saved value, and the original keeps its own;
+(2) breaking, resetting, returning in any OTHER context `o` at any point of any history changes
+    nothing for `c` (in particular: functions called in `c` run to their end — seeded C14-m4 made them
+    test the original's condition);
+(3) and vice versa: nothing done to the clone touches the original's condition. -/
+theorem clone_stop_independent (w : World) (src dst : CtxId) (s : Ctx) (h : w.ctxs src = some s) :
+    (∃ d, (apply w (.clone src dst)).ctxs dst = some d ∧ d.retPending = false ∧ d.st.returned = none ∧ d.running = false) ∧
+    (src ≠ dst → (apply w (.clone src dst)).ctxs src = some s) ∧
+    (∀ (w0 : World) (pre post : List Op) (c o : CtxId) (hc : HostCall), o ≠ c → (∀ s', Op.clone s' c ∉ pre ++ post) →
+      (run w0 (pre ++ [.host o hc] ++ post)).ctxs c = (run w0 (pre ++ post)).ctxs c) := by
+  refine ⟨?_, ?_, ?_⟩
+  · have e : apply w (.clone src dst) = { w with ctxs := upd w.ctxs dst (some (cloneCtx s)) } := by
+      simp only [apply, h]
+    rw [e]
+    exact ⟨cloneCtx s, upd_same _ _ _, rfl, rfl, rfl⟩
+  · intro hne
+    rw [(clone_copies w src dst s h).2.1 src hne, h]
+  · intro w0 pre post c o hc ho hno
+    exact others_ops_independent w0 pre [.host o hc] post c hno (by intro op hop; simp at hop; subst hop; exact ho)
+
+/-- the last run ended normally without handing a value to the host -/
+def endedOkNone (x : Ctx) : Bool :=
+  match x.result with
+  | some (.ok none) => true
+  | _ => false
+
+/-- non-vacuity: the original ran `return 1` (return pending), THEN is cloned; the clone runs
+`demoProg` to its end (Y = 6) while the original's next run returns at once; breaking the original in
+the middle of the clone's run changes nothing for the clone -/
+example :
+    let w := run (initWorld [demoProg, [.returnS (some (.lit (.int 1)))]] 50)
+      [.compile 0 0, .compile 0 1, .start 0 1, .step 0, .clone 0 1, .start 1 0, .step 1, .step 1, .host 0 .brk, .start 0 0,
+       .step 1, .step 1, .step 1]
+    ((w.ctxs 0).map fun c => (c.retPending, c.running, endedOkNone c, lookupVar c.st.vars "Y" == .null Ty.int)) =
+      some (true, false, true, true) ∧
+    ((w.ctxs 1).map fun c => (c.retPending, c.running, lookupVar c.st.vars "Y" == .int 6, c.st.output)) =
+      some (false, false, true, [54, 10]) := by
+  decide +kernel
+
+/-- a break that arrives DURING a run ends it at the next statement boundary, successfully; after
+`bloc_reset_stop` the context runs again -/
+example :
+    let w := run demoWorld [.start 0 0, .step 0, .step 0, .host 0 .brk, .step 0, .step 0]
+    let w' := run w [.host 0 .resetStop, .start 0 0, .step 0, .step 0, .step 0, .step 0, .step 0]
+    ((w.ctxs 0).map fun c => (c.running, endedOkNone c, lookupVar c.st.vars "Y" == .null Ty.int, c.retPending)) =
+      some (false, true, true, true) ∧
+    ((w'.ctxs 0).map fun c => (c.running, lookupVar c.st.vars "Y" == .int 6, c.retPending)) = some (false, true, false) := by
+  decide +kernel
+
+/-- A host call changes the one flag it names and nothing else of the context: variables, declarations,
+saved value, output, run state, result. -/
+theorem host_frame (h : HostCall) (x : Ctx) :
+    (hostCtx h x).st = x.st ∧ (hostCtx h x).funcs = x.funcs ∧ (hostCtx h x).running = x.running ∧
+    (hostCtx h x).result = x.result ∧ (hostCtx h x).pc = x.pc ∧ (hostCtx h x).prog = x.prog ∧
+    (hostCtx h x).execLevel = x.execLevel ∧ (hostCtx h x).whatBuf = x.whatBuf := by
+  cases h <;> exact ⟨rfl, rfl, rfl, rfl, rfl, rfl, rfl, rfl⟩
+
+example : hostCtx .brk { retPending := false, trusted := true } = { retPending := true, trusted := true } := rfl
+
+/-- `Executable::run` entered while the stop condition is pending (`if (ctx.returnCondition()) return 0;`):
+the call succeeds at once, hands no value to the host, executes nothing — variables, declarations and
+output stay — and the condition stays pending until `bloc_reset_stop`; after the reset the same `start`
+begins a real run. -/
+theorem start_while_pending (w : World) (c : CtxId) (pid : Nat) (x : Ctx) (hx : w.ctxs c = some x)
+    (hr : x.running = false) (hp : x.retPending = true) :
+    (∃ y, (apply w (.start c pid)).ctxs c = some y ∧ y.running = false ∧ endedOkNone y = true ∧ y.retPending = true ∧
+      y.st.vars = x.st.vars ∧ y.st.out = x.st.out ∧ y.funcs = x.funcs) ∧
+    (∃ z, (run w [.host c .resetStop, .start c pid]).ctxs c = some z ∧ z.running = true ∧ z.pc = 0 ∧ z.prog = pid ∧
+      z.retPending = false ∧ z.st.vars = x.st.vars ∧ z.funcs = x.funcs) := by
+  constructor
+  · simp only [apply, hx, hr, hp, Bool.false_eq_true, if_false, if_true, upd_same]
+    exact ⟨_, rfl, rfl, rfl, rfl, rfl, rfl, rfl⟩
+  · simp only [run, List.foldl_cons, List.foldl_nil, apply, hx, upd_same, hostCtx, hr, Bool.false_eq_true, if_false]
+    exact ⟨_, rfl, rfl, rfl, rfl, rfl, rfl, rfl⟩
+
+example : ((run (initWorld [[.returnS (some (.lit (.int 1)))], demoProg] 50) [.compile 0 0, .compile 0 1, .start 0 0, .step 0]).ctxs 0).map
+    (fun x => (x.running, x.retPending)) = some (false, true) := by
+  decide +kernel
+
+/-- **purge_original_keeps_clone.** After `clone src dst` (src ≠ dst) the original may be purged, freed,
+or both, at once or at any later point of any history (`pre`/`post`: operations on any contexts): the
+clone still holds the variables and the declarations it copied, and everything it does afterwards —
+compiling, running shared executables that call the copied functions — ends exactly as if the original
+had been left alone. (In the C++ the clone's table shares the `Functor` objects through
+`shared_ptr`: they survive the original's manager; fixes 137dbae / 4769647 were needed for the call
+contexts and the destructor order.) -/
+theorem purge_original_keeps_clone (w : World) (src dst : CtxId) (s : Ctx) (hne : src ≠ dst) (h : w.ctxs src = some s)
+    (pre post : List Op) (hno : ∀ s', Op.clone s' dst ∉ pre ++ post) :
+    (∀ kill ∈ [[Op.purge src], [Op.free src], [Op.purge src, Op.free src]],
+      (run (apply w (.clone src dst)) (pre ++ kill ++ post)).ctxs dst = (run (apply w (.clone src dst)) (pre ++ post)).ctxs dst) ∧
+    (∀ kill ∈ [[Op.purge src], [Op.free src], [Op.purge src, Op.free src]],
+      ((run (apply w (.clone src dst)) kill).ctxs dst).map (fun d => (d.st.vars, d.funcs)) = some (s.st.vars, s.funcs)) := by
+  constructor
+  · intro kill hk
+    apply others_ops_independent _ pre kill post dst hno
+    intro op hop
+    simp only [List.mem_cons, List.not_mem_nil, or_false] at hk
+    rcases hk with rfl | rfl | rfl <;> simp only [List.mem_cons, List.not_mem_nil, or_false] at hop
+    · subst hop; exact hne
+    · subst hop; exact hne
+    · rcases hop with rfl | rfl <;> exact hne
+  · intro kill hk
+    obtain ⟨⟨d, hd, hv, hf, _⟩, _⟩ := clone_copies w src dst s h
+    have := others_ops_independent (apply w (.clone src dst)) [] kill [] dst (by simp) (by
+      intro op hop
+      simp only [List.mem_cons, List.not_mem_nil, or_false] at hk
+      rcases hk with rfl | rfl | rfl <;> simp only [List.mem_cons, List.not_mem_nil, or_false] at hop
+      · subst hop; exact hne
+      · subst hop; exact hne
+      · rcases hop with rfl | rfl <;> exact hne)
+    simp only [List.nil_append, List.append_nil] at this
+    rw [this]
+    show ((apply w (.clone src dst)).ctxs dst).map (fun d => (d.st.vars, d.funcs)) = some (s.st.vars, s.funcs)
+    rw [hd, Option.map_some, hv, hf]
+
+/-- non-vacuity: `overProg` compiled in the original, cloned, the original purged and freed BEFORE the
+clone runs the shared executable: G(2) = AREA(2,5) + AREA() = 11 through the copied table -/
+example :
+    let w := run (initWorld [overProg] 50) [.compile 0 0, .clone 0 1, .purge 0, .free 0, .start 1 0,
+      .step 1, .step 1, .step 1, .step 1, .step 1, .step 1]
+    (w.ctxs 0).isNone = true ∧
+    ((w.ctxs 1).map fun c => (c.running, returnedVal c (.int 11), sigs c.funcs)) =
+      some (false, true, [("AREA", 0), ("AREA", 1), ("AREA", 2), ("G", 1)]) := by
+  decide +kernel
+
+/-- What else `clone` copies and does not copy (`Context::clone`, member by member — `cloneCtx`): the
+trusted flag IS copied, the trace flag is NOT (a new context does not trace), nor are the value saved
+by `return`, the output buffer, a run in progress, the exec stack, the running `forall`s, the thread's
+`what` buffer; `purge` keeps the trusted flag and clears the trace flag. -/
+theorem clone_flags (w : World) (src dst : CtxId) (s : Ctx) (h : w.ctxs src = some s) :
+    (∃ d, (apply w (.clone src dst)).ctxs dst = some d ∧ d.trusted = s.trusted ∧ d.trace = false ∧
+      d.execLevel = 0 ∧ d.st.iters = [] ∧ d.pc = 0 ∧ d.whatBuf = none) ∧
+    (∃ p, (apply w (.purge src)).ctxs src = some p ∧ p.trusted = s.trusted ∧ p.trace = false ∧ p.retPending = false ∧
+      p.funcs = [] ∧ p.st.vars = []) := by
+  constructor
+  · have e : apply w (.clone src dst) = { w with ctxs := upd w.ctxs dst (some (cloneCtx s)) } := by
+      simp only [apply, h]
+    rw [e]
+    exact ⟨cloneCtx s, upd_same _ _ _, rfl, rfl, rfl, rfl, rfl, rfl⟩
+  · have e : apply w (.purge src) = { w with ctxs := upd w.ctxs src (some (purgeCtx s)) } := by
+      simp only [apply, h]
+    rw [e]
+    exact ⟨purgeCtx s, upd_same _ _ _, rfl, rfl, rfl, rfl, rfl⟩
+
+example :
+    let w := run demoWorld [.host 0 (.trusted true), .host 0 (.trace true), .clone 0 3, .purge 0]
+    ((w.ctxs 3).map fun c => (c.trusted, c.trace)) = some (true, false) ∧
+    ((w.ctxs 0).map fun c => (c.trusted, c.trace)) = some (true, false) ∧
+    ((w.ctxs 1).map fun c => (c.trusted, c.trace)) = some (false, false) := by
+  decide +kernel
+
+/-! ### invariants of the function tables over all reachable worlds -/
+
+theorem stepOutcome_funcs (ctx : Ctx) (lw : List (StmtRef × Nat)) (r : Res Flow × St) :
+    (stepOutcome ctx lw r).1.funcs = ctx.funcs := by
+  unfold stepOutcome
+  split <;> rfl
+
+theorem reinstall_eq (fs fs' : List Func) (s : Stmt) (h : reinstall fs s = some fs') :
+    fs' = fs ∨ fs' = declare fs [s] := by
+  cases s <;> simp only [reinstall] at h
+  case funcS n ps rt b c =>
+    split at h
+    · cases h; exact .inr rfl
+    · cases h
+  all_goals (cases h; exact .inl rfl)
+
+/-- what a step can do to the function table: nothing, or re-install one declaration (`declare … [s]`) -/
+theorem stepCtx_funcs (progs : List (List Stmt)) (fuel : Nat) (x : Ctx) :
+    ∃ prog, (stepCtx progs fuel x).1.funcs = declare x.funcs prog := by
+  unfold stepCtx
+  split
+  · exact ⟨[], rfl⟩
+  · split
+    · exact ⟨[], rfl⟩
+    · split
+      · exact ⟨[], stepOutcome_funcs _ _ _⟩
+      · split
+        · exact ⟨[], rfl⟩
+        · rename_i stmt _
+          split
+          · exact ⟨[], stepOutcome_funcs _ _ _⟩
+          · rename_i fs' hre
+            rw [stepOutcome_funcs]
+            rcases reinstall_eq _ _ _ hre with e | e
+            · exact ⟨[], e⟩
+            · exact ⟨[stmt], e⟩
+
+/-- One operation, seen from context `c`: it is left as it was; or it stays and its function table is
+`declare`d further (compile, a re-installing step; `[]` = unchanged); or it is released; or purged
+(empty table); or it becomes the clone of a live context. -/
+theorem apply_ctx_cases (w : World) (op : Op) (c : CtxId) :
+    (apply w op).ctxs c = w.ctxs c ∨
+    (∃ x y prog, w.ctxs c = some x ∧ (apply w op).ctxs c = some y ∧ y.funcs = declare x.funcs prog) ∨
+    (op = .free c ∧ (apply w op).ctxs c = none) ∨
+    (op = .purge c ∧ ∃ y, (apply w op).ctxs c = some y ∧ y.funcs = []) ∨
+    (∃ s sx, op = .clone s c ∧ w.ctxs s = some sx ∧ (apply w op).ctxs c = some (cloneCtx sx)) := by
+  by_cases ht : c = op.target
+  · subst ht
+    cases op with
+    | compile c pid =>
+      simp only [apply, Op.target]
+      split
+      · exact .inl rfl
+      · rename_i x hx
+        exact .inr (.inl ⟨x, _, _, hx, upd_same _ _ _, rfl⟩)
+    | start c pid =>
+      simp only [apply, Op.target]
+      split
+      · exact .inl rfl
+      · rename_i x hx
+        split
+        · exact .inl rfl
+        · split
+          · exact .inr (.inl ⟨x, _, [], hx, upd_same _ _ _, rfl⟩)
+          · exact .inr (.inl ⟨x, _, [], hx, upd_same _ _ _, rfl⟩)
+    | step c =>
+      simp only [apply, Op.target]
+      split
+      · exact .inl rfl
+      · rename_i x hx
+        obtain ⟨prog, hp⟩ := stepCtx_funcs w.progs w.fuel x
+        exact .inr (.inl ⟨x, _, prog, hx, upd_same _ _ _, hp⟩)
+    | clone s d =>
+      simp only [apply, Op.target]
+      split
+      · exact .inl rfl
+      · rename_i sx hsx
+        exact .inr (.inr (.inr (.inr ⟨s, sx, rfl, hsx, upd_same _ _ _⟩)))
+    | purge c =>
+      simp only [apply, Op.target]
+      split
+      · exact .inl rfl
+      · exact .inr (.inr (.inr (.inl ⟨trivial, _, upd_same _ _ _, rfl⟩)))
+    | free c =>
+      exact .inr (.inr (.inl ⟨rfl, upd_same _ _ _⟩))
+    | host c h =>
+      simp only [apply, Op.target]
+      split
+      · exact .inl rfl
+      · rename_i x hx
+        exact .inr (.inl ⟨x, _, [], hx, upd_same _ _ _, by cases h <;> rfl⟩)
+  · exact .inl ((footprint w op).2.2.1 c ht)
+
+/-- every table of the world holds each signature once -/
+def TablesNodup (w : World) : Prop := ∀ c x, w.ctxs c = some x → (sigs x.funcs).Nodup
+
+/-- **The hypothesis of `index_call_eq_name_call` holds in every reachable world**: no operation ever
+puts a signature twice into a table (`createOrReplace` replaces in place or appends a NEW signature;
+`clone` copies a table that has the property; `purge` empties). -/
+theorem tablesNodup_apply (w : World) (op : Op) (h : TablesNodup w) : TablesNodup (apply w op) := by
+  intro c y hy
+  rcases apply_ctx_cases w op c with e | ⟨x, y', prog, hx, hy', hf⟩ | ⟨_, hn⟩ | ⟨_, y', hy', hf⟩ | ⟨s, sx, _, hsx, hc⟩
+  · rw [e] at hy; exact h c y hy
+  · rw [hy'] at hy; cases hy; rw [hf]; exact nodup_sigs_declare prog _ (h c x hx)
+  · rw [hn] at hy; cases hy
+  · rw [hy'] at hy; cases hy; rw [hf]; exact List.nodup_nil
+  · rw [hc] at hy; cases hy; exact h s sx hsx
+
+theorem tablesNodup_run (ops : List Op) : ∀ w, TablesNodup w → TablesNodup (run w ops) := by
+  induction ops with
+  | nil => intro w h; exact h
+  | cons op ops ih => intro w h; rw [run_cons]; exact ih _ (tablesNodup_apply w op h)
+
+theorem tablesNodup_init (progs : List (List Stmt)) (fuel : Nat) : TablesNodup (initWorld progs fuel) := by
+  intro c x hx
+  simp only [initWorld] at hx
+  split at hx
+  · cases hx; exact List.nodup_nil
+  · cases hx
+
+/-- non-vacuity: the world after compiling the overload program, cloning, redefining in the clone -/
+example : TablesNodup (run (initWorld [overProg, demoProg] 50) [.compile 0 0, .clone 0 1, .compile 1 1, .start 1 0, .step 1]) :=
+  tablesNodup_run _ _ (tablesNodup_init _ _)
+
+/-- **An executable linked in a context stays linked there** (function-table part) through everything
+that can happen to the context except a purge, its release, or its replacement by a clone of another
+context: compiling more programs, running any executables (re-installing declarations), host calls,
+and every operation on other contexts. -/
+theorem linked_preserved (w : World) (op : Op) (c : CtxId) (x : Ctx) (l : List Sig) (hx : w.ctxs c = some x)
+    (hl : linked l x.funcs = true) (hp : op ≠ .purge c) (hf : op ≠ .free c) (hk : ∀ s, op ≠ .clone s c) :
+    ∃ y, (apply w op).ctxs c = some y ∧ linked l y.funcs = true := by
+  rcases apply_ctx_cases w op c with e | ⟨x', y, prog, hx', hy, hfy⟩ | ⟨ho, _⟩ | ⟨ho, _⟩ | ⟨s, _, ho, _⟩
+  · exact ⟨x, by rw [e, hx], hl⟩
+  · rw [hx] at hx'; cases hx'
+    exact ⟨y, hy, by rw [hfy]; exact linked_declare l _ prog hl⟩
+  · exact absurd ho hf
+  · exact absurd ho hp
+  · exact absurd ho (hk s)
+
+/-- … over whole histories: no purge / free of `c`, no clone into `c`. -/
+theorem linked_preserved_run (l : List Sig) (c : CtxId) (ops : List Op) : ∀ (w : World) (x : Ctx), w.ctxs c = some x →
+    linked l x.funcs = true → Op.purge c ∉ ops → Op.free c ∉ ops → (∀ s, Op.clone s c ∉ ops) →
+    ∃ y, (run w ops).ctxs c = some y ∧ linked l y.funcs = true := by
+  induction ops with
+  | nil => intro w x hx hl _ _ _; exact ⟨x, hx, hl⟩
+  | cons op ops ih =>
+    intro w x hx hl hp hf hk
+    obtain ⟨y, hy, hly⟩ := linked_preserved w op c x l hx hl
+      (fun e => hp (e ▸ List.mem_cons_self)) (fun e => hf (e ▸ List.mem_cons_self)) (fun s e => hk s (e ▸ List.mem_cons_self))
+    rw [run_cons]
+    exact ih _ y hy hly (fun m => hp (List.mem_cons_of_mem _ m)) (fun m => hf (List.mem_cons_of_mem _ m))
+      (fun s m => hk s (List.mem_cons_of_mem _ m))
+
+/-- non-vacuity: clone 1 of `demoWorld` is linked to the table [F/1]; the history below (it compiles the
+redefinition + overload, runs, is interrupted) has no purge / free / clone into 1 — and F/1 is still at index 0 after it -/
+example : ((demoWorld.ctxs 1).map fun x => linked [("F", 1)] x.funcs) = some true ∧
+    (((run { demoWorld with progs := [demoProg, redefProg] } [.compile 1 1, .start 1 1, .step 1, .step 1, .host 1 .brk, .purge 0]).ctxs 1).map
+      fun y => (linked [("F", 1)] y.funcs, sigs y.funcs)) = some (true, [("F", 1), ("F", 2)]) := by
+  decide +kernel
+
+/-- **index = name in every reachable world**: `index_call_eq_name_call` without its table hypothesis —
+in any world reached from a fresh process by ANY operations, for any context and any executable linked
+there, the entry the C++ calls (by index) is the function the model calls (by name and arity). -/
+theorem reachable_index_call_eq_name_call (progs : List (List Stmt)) (fuel : Nat) (ops : List Op) (c : CtxId) (x : Ctx)
+    (l : List Sig) (name : String) (arity : Nat) (hx : (run (initWorld progs fuel) ops).ctxs c = some x)
+    (hl : linked l x.funcs = true) (hm : (name, arity) ∈ l) :
+    callByIndex l x.funcs name arity = callByName x.funcs name arity :=
+  index_call_eq_name_call l x.funcs name arity hl (tablesNodup_run ops _ (tablesNodup_init progs fuel) c x hx) hm
+
+example : ((run (initWorld [overProg] 50) [.compile 0 0, .clone 0 1, .purge 0]).ctxs 1).map
+    (fun x => (linked [("AREA", 0), ("AREA", 1), ("AREA", 2), ("G", 1)] x.funcs,
+               (callByIndex [("AREA", 0), ("AREA", 1), ("AREA", 2), ("G", 1)] x.funcs "AREA" 2).map sigOf,
+               (callByName x.funcs "AREA" 2).map sigOf)) = some (true, some ("AREA", 2), some ("AREA", 2)) := by
+  decide +kernel
+
+/-! ### World ↔ Interp: a stepped run IS `runProgram`
+
+`stepCtx` hands statement number `pc` to `exec` with fuel `w.fuel - pc - 1` — the fuel `execList` of
+Model/Interp.lean has left when it reaches that statement — so the equality below is exact: same
+outcome, same state, also when the fuel runs out. -/
+
+theorem execList_cons' (funcs : List Func) (depth fuel : Nat) (st : Stmt) (rest : List Stmt) (s : St) :
+    execList funcs depth (fuel + 1) (st :: rest) s =
+      match exec funcs depth fuel st s with
+      | (.ok fl, s') => if fl == .norm then execList funcs depth fuel rest s' else (.ok fl, s')
+      | (.err c a, s') => (.err c a, s')
+      | (.haz h, s') => (.haz h, s')
+      | (.unmodelled, s') => (.unmodelled, s') := by
+  rw [execList]
+  rw [bind_app]
+  cases h : exec funcs depth fuel st s with
+  | mk r s' =>
+    cases r with
+    | ok fl => dsimp only; split <;> rfl
+    | err c a => rfl
+    | haz h => rfl
+    | unmodelled => rfl
+
+theorem execList_zero (funcs : List Func) (depth : Nat) (l : List Stmt) (s : St) :
+    execList funcs depth 0 l s = (.err oofCode [], s) := by
+  rw [execList]; rfl
+
+theorem execList_nil (funcs : List Func) (depth fuel : Nat) (s : St) :
+    execList funcs depth (fuel + 1) [] s = (.ok .norm, s) := by
+  rw [execList]
+  · rfl
+  · simp
+
+/-- what `bloc_execute2` + `bloc_drop_returned` hand to the host for a finished statement list -/
+def outcomeOf (r : Res Flow × St) : Res (Option Val) :=
+  match r.1 with
+  | .ok _ => .ok r.2.returned
+  | .err c a => .err c a
+  | .haz h => .haz h
+  | .unmodelled => .unmodelled
+
+/-- context `y` is what a finished run with interpreter result `r` leaves -/
+def Finished (fs : List Func) (r : Res Flow × St) (y : Ctx) : Prop :=
+  y.running = false ∧ y.result = some (outcomeOf r) ∧ y.st = r.2 ∧ y.funcs = fs
+
+theorem step_ctx (w : World) (c : CtxId) (x : Ctx) (h : w.ctxs c = some x) :
+    (step w c).ctxs c = some (stepCtx w.progs w.fuel x).1 ∧ (step w c).progs = w.progs ∧ (step w c).fuel = w.fuel := by
+  refine ⟨?_, (footprint w (.step c)).1, (footprint w (.step c)).2.1⟩
+  simp only [step, apply, h, upd_same]
+
+theorem stepOutcome_finished (x : Ctx) (lw : List (StmtRef × Nat)) (r : Res Flow × St)
+    (hn : ∀ s', r ≠ (.ok .norm, s')) : Finished x.funcs r (stepOutcome x lw r).1 := by
+  rcases r with ⟨r, s'⟩
+  cases r with
+  | ok fl => cases fl <;> first | exact absurd rfl (hn s') | exact ⟨rfl, rfl, rfl, rfl⟩
+  | err c a => exact ⟨rfl, rfl, rfl, rfl⟩
+  | haz h => exact ⟨rfl, rfl, rfl, rfl⟩
+  | unmodelled => exact ⟨rfl, rfl, rfl, rfl⟩
+
+theorem stepped_run_eq_execList : ∀ (rest : List Stmt) (w : World) (c : CtxId) (x : Ctx),
+    w.ctxs c = some x → x.running = true → x.retPending = false →
+    (w.progs.getD x.prog []).drop x.pc = rest →
+    (∀ s ∈ rest, reinstall x.funcs s = some x.funcs) →
+    ∀ n, rest.length + 1 ≤ n →
+    ∃ y, (alone w c n).ctxs c = some y ∧ Finished x.funcs (execList x.funcs 0 (w.fuel - x.pc) rest x.st) y := by
+  intro rest
+  induction rest with
+  | nil =>
+    intro w c x hx hr hp hd _ n hn
+    obtain ⟨m, rfl⟩ : ∃ m, n = m + 1 := ⟨n - 1, by omega⟩
+    rw [alone_succ]
+    obtain ⟨hs, _, _⟩ := step_ctx w c x hx
+    have hnone : (w.progs.getD x.prog [])[x.pc]? = none := by
+      rw [List.getElem?_eq_none_iff]; exact List.drop_eq_nil_iff.mp hd
+    have hfin : Finished x.funcs (execList x.funcs 0 (w.fuel - x.pc) [] x.st) (stepCtx w.progs w.fuel x).1 := by
+      simp only [stepCtx, hr, hp, Bool.not_true, Bool.false_eq_true, if_false]
+      cases hf : w.fuel - x.pc with
+      | zero => dsimp only; rw [execList_zero]; exact ⟨rfl, rfl, rfl, rfl⟩
+      | succ f => dsimp only; rw [hnone, execList_nil]; exact ⟨rfl, rfl, rfl, rfl⟩
+    exact ⟨_, alone_idle (step w c) c _ hs hfin.1 m, hfin⟩
+  | cons s rest' ih =>
+    intro w c x hx hr hp hd hst n hn
+    obtain ⟨m, rfl⟩ : ∃ m, n = m + 1 := ⟨n - 1, by omega⟩
+    have hm : rest'.length + 1 ≤ m := by simp only [List.length_cons] at hn; omega
+    have hre : reinstall x.funcs s = some x.funcs := hst s List.mem_cons_self
+    rw [alone_succ]
+    obtain ⟨hs, hpr, hfu⟩ := step_ctx w c x hx
+    have hsome : (w.progs.getD x.prog [])[x.pc]? = some s := by
+      have := List.getElem?_drop (xs := w.progs.getD x.prog []) (i := x.pc) (j := 0)
+      rw [hd] at this
+      simpa using this.symm
+    have hd' : (w.progs.getD x.prog []).drop (x.pc + 1) = rest' := by
+      have := congrArg (List.drop 1) hd
+      simpa [List.drop_drop] using this
+    cases hf : w.fuel - x.pc with
+    | zero =>
+      have hfin : Finished x.funcs (execList x.funcs 0 0 (s :: rest') x.st) (stepCtx w.progs w.fuel x).1 := by
+        simp only [stepCtx, hr, hp, Bool.not_true, Bool.false_eq_true, if_false, hf]
+        rw [execList_zero]; exact ⟨rfl, rfl, rfl, rfl⟩
+      exact ⟨_, alone_idle (step w c) c _ hs hfin.1 m, hfin⟩
+    | succ f =>
+      have hstep : stepCtx w.progs w.fuel x = stepOutcome x
+          (stmtLevelWrites x.prog x.pc x.execLevel s ++ (x.funcs.map funcLevelWrites).flatten) (exec x.funcs 0 f s x.st) := by
+        have hx' : ({ x with running := true, retPending := false } : Ctx) = x := by
+          cases x; simp only at hr hp; subst hr; subst hp; rfl
+        simp only [stepCtx, hr, hp, Bool.not_true, Bool.false_eq_true, if_false, hf, hsome, hre]
+        exact congrArg (fun y => stepOutcome y _ _) hx'
+      rw [execList_cons']
+      by_cases hnorm : ∃ s', exec x.funcs 0 f s x.st = (.ok .norm, s')
+      · obtain ⟨s', he⟩ := hnorm
+        rw [he]
+        simp only [beq_self_eq_true, if_true]
+        rw [hstep, he] at hs
+        have := ih (step w c) c { x with st := s', pc := x.pc + 1 } hs hr hp (by rw [hpr]; exact hd')
+          (fun t ht => hst t (List.mem_cons_of_mem _ ht)) m hm
+        rw [hfu] at this
+        have hff : w.fuel - (x.pc + 1) = f := by omega
+        simp only [hff] at this
+        exact this
+      · have hn' : ∀ s', exec x.funcs 0 f s x.st ≠ (.ok .norm, s') := fun s' e => hnorm ⟨s', e⟩
+        have hfin := stepOutcome_finished x (stmtLevelWrites x.prog x.pc x.execLevel s ++ (x.funcs.map funcLevelWrites).flatten) _ hn'
+        rw [← hstep] at hfin
+        refine ⟨_, alone_idle (step w c) c _ hs hfin.1 m, ?_⟩
+        -- the list result is the statement's own result
+        have : (match exec x.funcs 0 f s x.st with
+            | (.ok fl, s') => if fl == .norm then execList x.funcs 0 f rest' s' else (.ok fl, s')
+            | (.err c a, s') => (.err c a, s')
+            | (.haz h, s') => (.haz h, s')
+            | (.unmodelled, s') => (.unmodelled, s')) = exec x.funcs 0 f s x.st := by
+          rcases he : exec x.funcs 0 f s x.st with ⟨r, s'⟩
+          cases r with
+          | ok fl =>
+            cases fl with
+            | norm => exact absurd he (hn' s')
+            | _ => rfl
+          | _ => rfl
+        rw [this]
+        exact hfin
+
+
+/-- the state `runProgram` starts from: every symbol the parser registered, as a typed null -/
+def progInit (prog : List Stmt) (init : St) : St :=
+  let vars0 := (mainDecls (collectFuncs prog) prog).foldl (fun vs (n, t) => if vs.any (·.1 == n) then vs else vs ++ [(n, Val.null t)]) init.vars
+  { init with vars := vars0 }
+
+theorem runProgram_eq_execList (fuel : Nat) (prog : List Stmt) (init : St) :
+    (runProgram fuel prog init).outcome = outcomeOf (execList (collectFuncs prog) 0 fuel prog (progInit prog init)) ∧
+    (runProgram fuel prog init).st = (execList (collectFuncs prog) 0 fuel prog (progInit prog init)).2 := by
+  unfold runProgram progInit
+  dsimp only
+  split <;> (rename_i h; rw [h]; exact ⟨rfl, rfl⟩)
+
+/-- `w`'s context `d` is about to run `prog` (executable `pid`) from the state `runProgram` starts
+from: the declarations of `prog` in its table, every variable of `prog` a typed null -/
+def ReadyToRun (w : World) (d : CtxId) (prog : List Stmt) : Prop :=
+  ∃ x, w.ctxs d = some x ∧ x.running = true ∧ x.retPending = false ∧ x.pc = 0 ∧
+    w.progs.getD x.prog [] = prog ∧ x.funcs = collectFuncs prog ∧ x.st = progInit prog {}
+
+theorem run_append (w : World) (a b : List Op) : run w (a ++ b) = run (run w a) b := by
+  simp [run, List.foldl_append]
+
+/-- Executing a declaration of `prog` puts back what compiling `prog` had put into the table
+(`FUNCTIONStatement::doit` is then a no-op, as `exec` of Model/Interp.lean has it). True of a program
+that declares each signature once and whose function bodies call only functions declared before them
+(what the parser accepts); FALSE of a program that declares one signature twice — there the first
+declaration is in force until the second one is executed, which `runProgram` does not model. -/
+def StableDecls (prog : List Stmt) : Prop :=
+  ∀ s ∈ prog, reinstall (collectFuncs prog) s = some (collectFuncs prog)
+
+/-- A program without function declarations has nothing to re-install: for those `world_run_eq_runProgram`
+and its companions hold unconditionally. -/
+theorem stableDecls_of_noDecl (prog : List Stmt)
+    (h : ∀ s ∈ prog, ∀ n ps rt b c, s ≠ .funcS n ps rt b c) : StableDecls prog := by
+  intro s hs
+  cases s with
+  | funcS n ps rt b c => exact absurd rfl (h _ hs n ps rt b c)
+  | _ => rfl
+
+example : StableDecls [.letS "X" (.lit (.int 5)), .printS [.var "X"], .returnS (some (.var "X"))] :=
+  stableDecls_of_noDecl _ (by intro s hs; simp at hs; rcases hs with rfl | rfl | rfl <;> (intros; simp))
+
+/-! #### a syntactic criterion for `StableDecls` -/
+
+/-- the declared return type the typing pass finds for a call (`typeOfExpr`, case `fcall`) -/
+def retOf (fs : List Func) (name : String) (k : Nat) : Ty :=
+  (fs.find? (fun f => f.name == name && f.params.length == k)).map (·.ret) |>.getD Ty.none
+
+theorem argsOK_all (S : String → Nat → Bool) (fuel : Nat) (args : List Expr) (h : argsOK S fuel args = true) :
+    ∀ a ∈ args, exprOK S fuel a = true := by
+  induction args with
+  | nil => intro a ha; cases ha
+  | cons x xs ih =>
+    rw [argsOK, Bool.and_eq_true] at h
+    intro a ha
+    rcases List.mem_cons.mp ha with rfl | ha
+    · exact h.1
+    · exact ih h.2 a ha
+
+theorem typeOfExpr_congr (S : String → Nat → Bool) (fs gs : List Func)
+    (hret : ∀ name k, S name k = true → retOf fs name k = retOf gs name k) :
+    ∀ (fuel : Nat) (tab : List (String × Ty)) (e : Expr), exprOK S fuel e = true →
+      typeOfExpr fs tab fuel e = typeOfExpr gs tab fuel e := by
+  intro fuel
+  induction fuel with
+  | zero => intro tab e _; rfl
+  | succ fuel ih =>
+    intro tab e h
+    cases e with
+    | lit v => rfl
+    | var n => rfl
+    | un op a =>
+      rw [exprOK] at h
+      simp only [typeOfExpr]; rw [ih tab a h]
+    | bin op a b =>
+      rw [exprOK, Bool.and_eq_true] at h
+      simp only [typeOfExpr]; rw [ih tab a h.1, ih tab b h.2]
+    | call name args =>
+      rw [exprOK] at h
+      have hm : args.map (typeOfExpr fs tab fuel) = args.map (typeOfExpr gs tab fuel) :=
+        List.map_congr_left (fun a ha => ih tab a (argsOK_all S fuel args h a ha))
+      unfold typeOfExpr
+      split <;> rename_i heq <;>
+        first
+        | (cases heq; rw [hm])
+        | (cases heq)
+    | fcall name args =>
+      rw [exprOK] at h
+      have := hret name args.length h
+      simp only [retOf] at this
+      simp only [typeOfExpr]
+      exact this
+    | member m recv args =>
+      rw [exprOK] at h
+      simp only [typeOfExpr]; rw [ih tab recv h]
+    | errorE => simp only [typeOfExpr]
+    | item e n =>
+      -- `ItemExpression::type`: the declaration is static only for `error@N` and `tup(…)@N`
+      cases e with
+      | call name args =>
+        by_cases hn : name = "tup"
+        · subst hn
+          have hok : argsOK S fuel args = true := by rw [exprOK] at h; exact h
+          have hm : args.map (typeOfExpr fs tab fuel) = args.map (typeOfExpr gs tab fuel) :=
+            List.map_congr_left (fun a ha => ih tab a (argsOK_all S fuel args hok a ha))
+          simp only [typeOfExpr, hm]
+        · rw [typeOfExpr, typeOfExpr] <;> first | rfl | (intro args' hc; cases hc; exact hn rfl) | (intro hc; cases hc)
+      | errorE => simp only [typeOfExpr]
+      | lit v => simp only [typeOfExpr]
+      | var v => simp only [typeOfExpr]
+      | un op a => simp only [typeOfExpr]
+      | bin op a b => simp only [typeOfExpr]
+      | fcall name args => simp only [typeOfExpr]
+      | member m recv args => simp only [typeOfExpr]
+      | item e2 n2 => simp only [typeOfExpr]
+
+
+theorem decl_congr (S : String → Nat → Bool) (fs gs : List Func)
+    (hret : ∀ name k, S name k = true → retOf fs name k = retOf gs name k) : ∀ fuel : Nat,
+    (∀ t st, stmtOK S fuel st = true → declStmt fs fuel t st = declStmt gs fuel t st) ∧
+    (∀ t l, listOK S fuel l = true → declList fs fuel t l = declList gs fuel t l) ∧
+    (∀ t l, rulesOK S fuel l = true → declRules fs fuel t l = declRules gs fuel t l) ∧
+    (∀ t l, catchesOK S fuel l = true → declCatches fs fuel t l = declCatches gs fuel t l) := by
+  have hE := typeOfExpr_congr S fs gs hret
+  intro fuel
+  induction fuel with
+  | zero =>
+    refine ⟨fun t st _ => ?_, fun t l _ => ?_, fun t l _ => ?_, fun t l _ => ?_⟩
+    · simp only [declStmt]
+    · simp only [declList]
+    · simp only [declRules]
+    · simp only [declCatches]
+  | succ fuel ih =>
+    obtain ⟨ihS, ihL, ihR, ihC⟩ := ih
+    refine ⟨?_, ?_, ?_, ?_⟩
+    · intro t st h
+      cases st with
+      | letS n e =>
+        simp only [stmtOK] at h
+        simp only [declStmt]; rw [hE 100 _ e h]
+      | forS v b e st d body =>
+        simp only [stmtOK] at h
+        simp only [declStmt]; exact ihL _ body h
+      | forallS it src d body =>
+        simp only [stmtOK, Bool.and_eq_true] at h
+        simp only [declStmt]; rw [hE 100 _ src h.1]; exact ihL _ body h.2
+      | whileS c body =>
+        simp only [stmtOK] at h
+        simp only [declStmt]; exact ihL _ body h
+      | ifS rules =>
+        simp only [stmtOK] at h
+        simp only [declStmt]; exact ihR _ rules h
+      | beginS body catches =>
+        simp only [stmtOK, Bool.and_eq_true] at h
+        simp only [declStmt]; rw [ihL _ body h.1]; exact ihC _ catches h.2
+      | _ => simp only [declStmt]
+    · intro t l h
+      cases l with
+      | nil => simp only [declList]
+      | cons s rest =>
+        simp only [listOK, Bool.and_eq_true] at h
+        simp only [declList]; rw [ihS _ s h.1]; exact ihL _ rest h.2
+    · intro t l h
+      cases l with
+      | nil => simp only [declRules]
+      | cons r rest =>
+        obtain ⟨c, body⟩ := r
+        simp only [rulesOK, Bool.and_eq_true] at h
+        simp only [declRules]; rw [ihL _ body h.1]; exact ihR _ rest h.2
+    · intro t l h
+      cases l with
+      | nil => simp only [declCatches]
+      | cons r rest =>
+        obtain ⟨c, body⟩ := r
+        simp only [catchesOK, Bool.and_eq_true] at h
+        simp only [declCatches]; rw [ihL _ body h.1]; exact ihC _ rest h.2
+
+
+/-! #### the fold: a program that declares each signature once, bodies calling only what is declared so far -/
+
+theorem any_sameSig_iff (fs : List Func) (f : Func) : fs.any (sameSig f) = true ↔ sigOf f ∈ sigs fs := by
+  constructor
+  · intro h
+    obtain ⟨g, hg, hs⟩ := List.any_eq_true.mp h
+    exact List.mem_map.mpr ⟨g, hg, ((sameSig_iff f g).mp hs).symm⟩
+  · intro hm
+    obtain ⟨g, hg, hs⟩ := List.mem_map.mp hm
+    exact List.any_eq_true.mpr ⟨g, hg, (sameSig_iff f g).mpr hs.symm⟩
+
+theorem addFunc_new (fs : List Func) (f : Func) (h : sigOf f ∉ sigs fs) : addFunc fs f = fs ++ [f] := by
+  unfold addFunc
+  rw [if_neg]
+  intro ha
+  exact h ((any_sameSig_iff fs f).mp ha)
+
+theorem addFunc_replace (pre post : List Func) (g f : Func) (nd : (sigs (pre ++ [g] ++ post)).Nodup)
+    (hs : sigOf f = sigOf g) : addFunc (pre ++ [g] ++ post) f = pre ++ [f] ++ post := by
+  have hmem : sigOf f ∈ sigs (pre ++ [g] ++ post) := by
+    rw [hs]; simp [sigs]
+  unfold addFunc
+  rw [if_pos ((any_sameSig_iff _ f).mpr hmem)]
+  simp only [sigs, List.map_append, List.map_cons, List.map_nil] at nd
+  have hpre : ∀ x ∈ pre, sameSig f x = false := by
+    intro x hx
+    cases hq : sameSig f x with
+    | false => rfl
+    | true =>
+      exfalso
+      have e := (sameSig_iff f x).mp hq
+      have h1 : sigOf g ∈ pre.map sigOf := by rw [← hs, e]; exact List.mem_map.mpr ⟨x, hx, rfl⟩
+      have nd1 := (List.nodup_append.mp (List.nodup_append.mp nd).1).2.2
+      exact nd1 _ h1 _ (List.mem_singleton.mpr rfl) rfl
+  have hpost : ∀ x ∈ post, sameSig f x = false := by
+    intro x hx
+    cases hq : sameSig f x with
+    | false => rfl
+    | true =>
+      exfalso
+      have e := (sameSig_iff f x).mp hq
+      have h1 : sigOf g ∈ post.map sigOf := by rw [← hs, e]; exact List.mem_map.mpr ⟨x, hx, rfl⟩
+      have nd1 := (List.nodup_append.mp nd).2.2
+      exact nd1 (sigOf g) (by simp) _ h1 rfl
+  have hg : sameSig f g = true := (sameSig_iff f g).mpr hs
+  simp only [List.map_append, List.map_cons, List.map_nil, hg, if_true]
+  congr 1
+  · congr 1
+    conv => rhs; rw [← List.map_id pre]
+    exact List.map_congr_left (fun x hx => by simp [hpre x hx])
+  · conv => rhs; rw [← List.map_id post]
+    exact List.map_congr_left (fun x hx => by simp [hpost x hx])
+
+theorem retOf_append (l1 l2 : List Func) (name : String) (k : Nat) (h : (name, k) ∈ sigs l1) :
+    retOf (l1 ++ l2) name k = retOf l1 name k := by
+  unfold retOf
+  rw [List.find?_append]
+  obtain ⟨g, hg, hs⟩ := List.mem_map.mp h
+  have : (l1.find? (fun f => f.name == name && f.params.length == k)).isSome = true := by
+    rw [List.find?_isSome]
+    refine ⟨g, hg, ?_⟩
+    simp only [sigOf, Prod.mk.injEq] at hs
+    simp [hs.1, hs.2]
+  cases hf : l1.find? (fun f => f.name == name && f.params.length == k) with
+  | none => rw [hf] at this; cases this
+  | some x => rfl
+
+/-- the private symbols the compilation of `function n(ps) … ` computes in a context whose table is `fs` -/
+def declsOf (fs : List Func) (n : String) (ps : List (String × Ty)) (rt : Ty) (b : List Stmt) (c : List (String × List Stmt)) :
+    List (String × Ty) :=
+  let f0 : Func := { name := n, params := ps, ret := rt, body := b, catches := c }
+  (declCatches (addFunc fs f0) 1000 (declList (addFunc fs f0) 1000 (ps.map fun (pn, pt) => (pn, pt, pt)) b) c).first
+
+theorem declare_one_func (fs : List Func) (n : String) (ps : List (String × Ty)) (rt : Ty) (b : List Stmt) (c : List (String × List Stmt)) :
+    declare fs [.funcS n ps rt b c] =
+      addFunc fs { name := n, params := ps, ret := rt, body := b, catches := c, decls := declsOf fs n ps rt b c } := rfl
+
+theorem wfDecls_func (seen : List Sig) (n : String) (ps : List (String × Ty)) (rt : Ty) (b : List Stmt)
+    (c : List (String × List Stmt)) (rest : List Stmt) (h : wfDecls seen (.funcS n ps rt b c :: rest) = true) :
+    (n, ps.length) ∉ seen ∧
+    listOK (fun name k => (seen ++ [(n, ps.length)]).contains (name, k)) 1000 b = true ∧
+    catchesOK (fun name k => (seen ++ [(n, ps.length)]).contains (name, k)) 1000 c = true ∧
+    wfDecls (seen ++ [(n, ps.length)]) rest = true := by
+  simp only [wfDecls, Bool.and_eq_true, Bool.not_eq_true'] at h
+  refine ⟨?_, h.1.1.2, h.1.2, h.2⟩
+  intro hm
+  have : seen.contains (n, ps.length) = true := by simpa using hm
+  rw [this] at h
+  exact absurd h.1.1.1 (by decide)
+
+theorem wfDecls_other (seen : List Sig) (st : Stmt) (rest : List Stmt) (hst : ∀ n ps rt b c, st ≠ .funcS n ps rt b c)
+    (h : wfDecls seen (st :: rest) = true) : wfDecls seen rest = true ∧ ∀ fs, declare fs [st] = fs := by
+  cases st with
+  | funcS n ps rt b c => exact absurd rfl (hst n ps rt b c)
+  | _ => exact ⟨h, fun fs => rfl⟩
+
+/-- a well-formed declaration sequence only APPENDS to the table -/
+theorem declare_wf_append (rest : List Stmt) : ∀ fs : List Func, wfDecls (sigs fs) rest = true →
+    ∃ extra, declare fs rest = fs ++ extra := by
+  induction rest with
+  | nil => intro fs _; exact ⟨[], by simp [declare]⟩
+  | cons st rest ih =>
+    intro fs h
+    rw [declare_cons]
+    by_cases hst : ∃ n ps rt b c, st = .funcS n ps rt b c
+    · obtain ⟨n, ps, rt, b, c, rfl⟩ := hst
+      obtain ⟨hnew, _, _, hrest⟩ := wfDecls_func _ n ps rt b c rest h
+      have e : declare fs [.funcS n ps rt b c] = fs ++ [{ name := n, params := ps, ret := rt, body := b, catches := c, decls := declsOf fs n ps rt b c }] := by
+        rw [declare_one_func]; exact addFunc_new fs _ hnew
+      rw [e]
+      have hs : sigs (fs ++ [{ name := n, params := ps, ret := rt, body := b, catches := c, decls := declsOf fs n ps rt b c }]) = sigs fs ++ [(n, ps.length)] := by
+        simp [sigs, sigOf]
+      obtain ⟨extra, he⟩ := ih _ (by rw [hs]; exact hrest)
+      refine ⟨[{ name := n, params := ps, ret := rt, body := b, catches := c, decls := declsOf fs n ps rt b c }] ++ extra, ?_⟩
+      rw [he, List.append_assoc]
+    · have hst' : ∀ n ps rt b c, st ≠ .funcS n ps rt b c := fun n ps rt b c e => hst ⟨n, ps, rt, b, c, e⟩
+      obtain ⟨hrest, hd⟩ := wfDecls_other _ st rest hst' h
+      rw [hd]
+      exact ih fs hrest
+
+/-- **Syntactic criterion for `StableDecls`** (general form, over a table `fs0` that exists already):
+in a well-formed declaration sequence, executing any declaration after the whole sequence was compiled
+puts back exactly what the compilation had put there. -/
+theorem reinstall_stable_of_wf (prog : List Stmt) : ∀ fs0 : List Func, (sigs fs0).Nodup → wfDecls (sigs fs0) prog = true →
+    ∀ s ∈ prog, reinstall (declare fs0 prog) s = some (declare fs0 prog) := by
+  induction prog with
+  | nil => intro fs0 _ _ s hs; cases hs
+  | cons st rest ih =>
+    intro fs0 nd h s hs
+    rw [declare_cons]
+    by_cases hst : ∃ n ps rt b c, st = .funcS n ps rt b c
+    · obtain ⟨n, ps, rt, b, c, rfl⟩ := hst
+      obtain ⟨hnew, hb, hc, hrest⟩ := wfDecls_func _ n ps rt b c rest h
+      let F : Func := { name := n, params := ps, ret := rt, body := b, catches := c, decls := declsOf fs0 n ps rt b c }
+      have e : declare fs0 [.funcS n ps rt b c] = fs0 ++ [F] := by
+        rw [declare_one_func]; exact addFunc_new fs0 _ hnew
+      have hs1 : sigs (fs0 ++ [F]) = sigs fs0 ++ [(n, ps.length)] := by simp [sigs, sigOf, F]
+      have nd1 : (sigs (fs0 ++ [F])).Nodup := by
+        rw [← e]; exact (sigs_declare_one fs0 _).2 nd
+      rw [e]
+      rcases List.mem_cons.mp hs with rfl | hs'
+      · -- the declaration itself, executed after everything was compiled
+        obtain ⟨extra, he⟩ := declare_wf_append rest (fs0 ++ [F]) (by rw [hs1]; exact hrest)
+        have ndT : (sigs (fs0 ++ [F] ++ extra)).Nodup := by rw [← he]; exact nodup_sigs_declare rest _ nd1
+        rw [he]
+        have hin : (fs0 ++ [F] ++ extra).any (sameSig { name := n, params := ps, ret := rt, body := b, catches := c }) = true := by
+          rw [any_sameSig_iff]; simp [sigs, sigOf, F]
+        simp only [reinstall, hin, if_true]
+        rw [declare_one_func]
+        -- the table the re-installation computes the private symbols against
+        have hT0 : addFunc (fs0 ++ [F] ++ extra) { name := n, params := ps, ret := rt, body := b, catches := c } =
+            fs0 ++ [{ name := n, params := ps, ret := rt, body := b, catches := c }] ++ extra :=
+          addFunc_replace fs0 extra F _ ndT rfl
+        have h00 : addFunc fs0 { name := n, params := ps, ret := rt, body := b, catches := c } =
+            fs0 ++ [{ name := n, params := ps, ret := rt, body := b, catches := c }] :=
+          addFunc_new fs0 _ hnew
+        have hret : ∀ name k, (fun name k => (sigs fs0 ++ [(n, ps.length)]).contains (name, k)) name k = true →
+            retOf (fs0 ++ [{ name := n, params := ps, ret := rt, body := b, catches := c }] ++ extra) name k =
+            retOf (fs0 ++ [{ name := n, params := ps, ret := rt, body := b, catches := c }]) name k := by
+          intro name k hk
+          apply retOf_append
+          simp only [List.contains_eq_mem, decide_eq_true_eq] at hk
+          simpa [sigs, sigOf] using hk
+        obtain ⟨_, hL, _, hC⟩ := decl_congr _ _ _ hret 1000
+        have hdecls : declsOf (fs0 ++ [F] ++ extra) n ps rt b c = declsOf fs0 n ps rt b c := by
+          unfold declsOf
+          simp only [hT0, h00]
+          rw [hL _ b hb, hC _ c hc]
+        rw [hdecls]
+        exact congrArg some (addFunc_replace fs0 extra F F ndT rfl)
+      · exact ih (fs0 ++ [F]) nd1 (by rw [hs1]; exact hrest) s hs'
+    · have hst' : ∀ n ps rt b c, st ≠ .funcS n ps rt b c := fun n ps rt b c e => hst ⟨n, ps, rt, b, c, e⟩
+      obtain ⟨hrest, hd⟩ := wfDecls_other _ st rest hst' h
+      rw [hd]
+      rcases List.mem_cons.mp hs with rfl | hs'
+      · cases s with
+        | funcS n ps rt b c => exact absurd rfl (hst' n ps rt b c)
+        | _ => rfl
+      · exact ih fs0 nd hrest s hs'
+
+/-- **stableDecls_of_wf**: every program whose declarations are well formed (each signature once, bodies call
+what is declared so far — checkable by evaluation: `wfDecls [] prog`) satisfies the hypothesis of
+`world_run_eq_runProgram` and its companions. -/
+theorem stableDecls_of_wf (prog : List Stmt) (h : wfDecls [] prog = true) : StableDecls prog :=
+  reinstall_stable_of_wf prog [] List.nodup_nil h
+
+example : wfDecls [] demoProg = true ∧ wfDecls [] overProg = true := by decide +kernel
+
+/-- **World ↔ Interp, the core.** A context that is ready to run `prog`, stepped to the end of its run
+(`n` steps, at least one per statement and one to notice the end) with nobody else moving, ends with
+EXACTLY the outcome and the state `runProgram` of Model/Interp.lean computes with the same fuel: result
+handed to the host, variables, saved value, output, remaining budget. -/
+theorem ready_run_eq_runProgram (w : World) (d : CtxId) (prog : List Stmt) (h : ReadyToRun w d prog)
+    (hsd : StableDecls prog) (n : Nat) (hn : prog.length + 1 ≤ n) :
+    ∃ y, (alone w d n).ctxs d = some y ∧ y.running = false ∧
+      y.result = some (runProgram w.fuel prog).outcome ∧ y.st = (runProgram w.fuel prog).st ∧
+      y.funcs = collectFuncs prog := by
+  obtain ⟨x, hx, hr, hp, hpc, hprog, hf, hst⟩ := h
+  obtain ⟨y, hy, h1, h2, h3, h4⟩ := stepped_run_eq_execList prog w d x hx hr hp (by rw [hpc, hprog]; rfl)
+    (by rw [hf]; exact hsd) n hn
+  have e := runProgram_eq_execList w.fuel prog {}
+  rw [hpc, Nat.sub_zero, hf, hst] at h2 h3
+  exact ⟨y, hy, h1, by rw [h2, e.1], by rw [h3, e.2], by rw [h4, hf]⟩
+
+/-- **World ↔ Interp under every schedule.** The same, with the steps of `d` interleaved in ANY way
+with steps of any other contexts (`sched`: any list of context ids in which `d` occurs often enough):
+what a clone computes on its thread is `runProgram` — the semantics C04–C08 are proved about. -/
+theorem interleaved_run_eq_runProgram (w : World) (d : CtxId) (prog : List Stmt) (h : ReadyToRun w d prog)
+    (hsd : StableDecls prog) (sched : List CtxId) (hn : prog.length + 1 ≤ sched.count d) :
+    ∃ y, (run w (sched.map Op.step)).ctxs d = some y ∧ y.running = false ∧
+      y.result = some (runProgram w.fuel prog).outcome ∧ y.st = (runProgram w.fuel prog).st := by
+  rw [interleaving_eq_sequential]
+  obtain ⟨y, hy, h1, h2, h3, _⟩ := ready_run_eq_runProgram w d prog h hsd _ hn
+  exact ⟨y, hy, h1, h2, h3⟩
+
+/-- The original after `compile` + `start` is ready … -/
+theorem original_ready (fuel : Nat) (prog : List Stmt) :
+    ReadyToRun (run (initWorld [prog] fuel) [.compile 0 0, .start 0 0]) 0 prog := by
+  have hc : (run (initWorld [prog] fuel) [.compile 0 0, .start 0 0]).ctxs 0 =
+      some { st := progInit prog {}, funcs := collectFuncs prog, prog := 0, pc := 0, running := true, result := none } := by
+    have hdecl : declare [] prog = collectFuncs prog := rfl
+    simp [run, apply, initWorld, upd, progInit, hdecl]
+  exact ⟨_, hc, rfl, rfl, rfl, rfl, rfl, rfl⟩
+
+/-- … and so is every clone `d` of the compiled original (clone, then `start` of the SHARED
+executable in the clone — nothing is compiled in the clone), whatever is done afterwards to other
+contexts: more clones, their starts, their steps, purge / free of the original (`more`). -/
+theorem clone_ready (fuel : Nat) (prog : List Stmt) (d : CtxId) (more : List Op)
+    (hm : ∀ op ∈ more, op.target ≠ d) :
+    ReadyToRun (run (initWorld [prog] fuel) ([.compile 0 0, .clone 0 d, .start d 0] ++ more)) d prog := by
+  have hfoot : ∀ (ops : List Op) (w : World), (run w ops).progs = w.progs := by
+    intro ops
+    induction ops with
+    | nil => intro w; rfl
+    | cons op ops ih => intro w; rw [run_cons, ih, (footprint w op).1]
+  rw [run_append]
+  have := others_ops_independent (run (initWorld [prog] fuel) [.compile 0 0, .clone 0 d, .start d 0]) [] more [] d
+    (by intro s hmem; simp at hmem) hm
+  simp only [List.append_nil, List.nil_append] at this
+  have hc : (run (initWorld [prog] fuel) [.compile 0 0, .clone 0 d, .start d 0]).ctxs d =
+      some { st := progInit prog {}, funcs := collectFuncs prog, prog := 0, pc := 0, running := true, result := none } := by
+    have hdecl : declare [] prog = collectFuncs prog := rfl
+    simp [run, apply, initWorld, upd, cloneCtx, progInit, hdecl]
+  refine ⟨_, this.trans hc, rfl, rfl, rfl, ?_, rfl, rfl⟩
+  rw [hfoot, hfoot]; rfl
+
+/-- **world_run_eq_runProgram** (goal 2 of the task, exact — no fuel slack): the single-context
+`World.run` of a program IS `Interp.runProgram`. -/
+theorem world_run_eq_runProgram (fuel : Nat) (prog : List Stmt) (hsd : StableDecls prog) (n : Nat) (hn : prog.length + 1 ≤ n) :
+    ∃ y, (run (initWorld [prog] fuel) ([.compile 0 0, .start 0 0] ++ List.replicate n (.step 0))).ctxs 0 = some y ∧
+      y.running = false ∧ y.result = some (runProgram fuel prog).outcome ∧ y.st = (runProgram fuel prog).st ∧
+      y.funcs = collectFuncs prog := by
+  rw [run_append]
+  exact ready_run_eq_runProgram _ 0 prog (original_ready fuel prog) hsd n hn
+
+/-- **clones_run_eq_runProgram**: `k` clones of one compiled original, all running the shared
+executable under ANY interleaving of their statement steps (and of steps of the original): every clone
+whose run got to its end ends with `runProgram`'s outcome and state. -/
+theorem clones_run_eq_runProgram (fuel : Nat) (prog : List Stmt) (hsd : StableDecls prog) (d : CtxId) (more : List Op)
+    (hm : ∀ op ∈ more, op.target ≠ d) (sched : List CtxId) (hn : prog.length + 1 ≤ sched.count d) :
+    ∃ y, (run (initWorld [prog] fuel) ([.compile 0 0, .clone 0 d, .start d 0] ++ more ++ sched.map Op.step)).ctxs d = some y ∧
+      y.running = false ∧ y.result = some (runProgram fuel prog).outcome ∧ y.st = (runProgram fuel prog).st := by
+  rw [run_append]
+  have hfu : ∀ (ops : List Op) (w : World), (run w ops).fuel = w.fuel := by
+    intro ops
+    induction ops with
+    | nil => intro w; rfl
+    | cons op ops ih => intro w; rw [run_cons, ih, (footprint w op).2.1]
+  have := interleaved_run_eq_runProgram _ d prog (clone_ready fuel prog d more hm) hsd sched hn
+  rw [hfu] at this
+  exact this
+
+/-- `demoProg` and `overProg` (three overloads, a function calling two of them) satisfy the hypothesis -/
+theorem stable_demoProg : StableDecls demoProg := by
+  intro s hs
+  simp only [demoProg, List.mem_cons, List.not_mem_nil, or_false] at hs
+  rcases hs with rfl | rfl | rfl | rfl <;> rfl
+
+theorem stable_overProg : StableDecls overProg := by
+  intro s hs
+  simp only [overProg, List.mem_cons, List.not_mem_nil, or_false] at hs
+  rcases hs with rfl | rfl | rfl | rfl | rfl | rfl <;> rfl
+
+/-- The hypothesis is needed, and where it fails the CODE agrees with `World`, not with `runProgram`: a
+program that declares F twice with a call in between. Executing the first declaration puts the first
+body back (`FUNCTIONStatement::doit`), so X = 1 and Y = 2 (checked on the real library: family
+`redecl` of vlib/props/c14.py); `runProgram` of Model/Interp.lean resolves both calls in the table the
+compilation left (second body): X = 2. -/
+def redeclProg : List Stmt :=
+  [.funcS "F" [] Ty.int [.returnS (some (.lit (.int 1)))] [],
+   .letS "X" (.fcall "F" []),
+   .funcS "F" [] Ty.int [.returnS (some (.lit (.int 2)))] [],
+   .letS "Y" (.fcall "F" [])]
+
+/-- … and the criterion rejects it (F/0 is declared twice) -/
+example : wfDecls [] redeclProg = false := by decide +kernel
+
+theorem stableDecls_needed :
+    let w := run (initWorld [redeclProg] 50) ([.compile 0 0, .start 0 0] ++ List.replicate 5 (.step 0))
+    ((w.ctxs 0).map fun c => (c.running, lookupVar c.st.vars "X" == .int 1, lookupVar c.st.vars "Y" == .int 2)) = some (false, true, true) ∧
+    (lookupVar (runProgram 50 redeclProg).st.vars "X" == .int 2) = true ∧
+    (lookupVar (runProgram 50 redeclProg).st.vars "Y" == .int 2) = true := by
+  decide +kernel
+
+/-- **A declaration statement re-installs its function where it is executed — and only there.** Clone 1
+redefines F (`redefProg`: F(p) = 100·p) and runs it (Y = 500); then it runs the OLD shared executable
+`demoProg`, whose first statement is the declaration of the old F: clone 1's F/1 is the old one again
+(Y = 6), the overload F/2 it added stays, and the original — which never ran `redefProg` — was never
+affected. -/
+theorem old_executable_reinstalls_its_functions :
+    let w := run (initWorld [demoProg, redefProg] 50)
+      ([.compile 0 0, .clone 0 1, .compile 1 1, .start 1 1, .step 1, .step 1, .step 1, .step 1] )
+    let w' := run w ([.start 1 0, .step 1, .step 1, .step 1, .step 1, .step 1, .start 0 0, .step 0, .step 0, .step 0, .step 0, .step 0])
+    ((w.ctxs 1).map fun c => (lookupVar c.st.vars "Y" == .int 500, sigs c.funcs)) = some (true, [("F", 1), ("F", 2)]) ∧
+    ((w'.ctxs 1).map fun c => (c.running, lookupVar c.st.vars "Y" == .int 6, sigs c.funcs)) = some (false, true, [("F", 1), ("F", 2)]) ∧
+    ((w'.ctxs 0).map fun c => (c.running, lookupVar c.st.vars "Y" == .int 6, sigs c.funcs)) = some (false, true, [("F", 1)]) := by
+  decide +kernel
+
+/-- non-vacuity: `demoProg` (4 statements) — original and two clones, the clones started after
+everything was set up, 15 interleaved steps: clone 2 ends as `runProgram` says (Y = 6, "6\n") -/
+example : (runProgram 50 demoProg).st.output = [54, 10] ∧
+    lookupVar (runProgram 50 demoProg).st.vars "Y" == .int 6 := by
+  decide +kernel
+
+example : ∃ y, (run (initWorld [demoProg] 50) ([.compile 0 0, .clone 0 2, .start 2 0] ++ [.clone 0 1, .start 1 0, .purge 0] ++
+      ([2, 0, 1, 1, 2, 0, 0, 2, 1, 1, 0, 2, 2, 1, 0].map Op.step))).ctxs 2 = some y ∧
+    y.running = false ∧ y.result = some (runProgram 50 demoProg).outcome ∧ y.st = (runProgram 50 demoProg).st :=
+  clones_run_eq_runProgram 50 demoProg stable_demoProg 2 _ (by decide) _ (by decide)
+
+/-- **world_run_eq_runProgram for every well-formed program** — the hypothesis discharged by evaluation of
+`wfDecls [] prog` (true of every program the generators of the correspondence produce except the
+family `redecl`, which exists to show the difference). -/
+theorem world_run_eq_runProgram_wf (fuel : Nat) (prog : List Stmt) (hwf : wfDecls [] prog = true) (n : Nat) (hn : prog.length + 1 ≤ n) :
+    ∃ y, (run (initWorld [prog] fuel) ([.compile 0 0, .start 0 0] ++ List.replicate n (.step 0))).ctxs 0 = some y ∧
+      y.running = false ∧ y.result = some (runProgram fuel prog).outcome ∧ y.st = (runProgram fuel prog).st ∧
+      y.funcs = collectFuncs prog :=
+  world_run_eq_runProgram fuel prog (stableDecls_of_wf prog hwf) n hn
+
+theorem clones_run_eq_runProgram_wf (fuel : Nat) (prog : List Stmt) (hwf : wfDecls [] prog = true) (d : CtxId) (more : List Op)
+    (hm : ∀ op ∈ more, op.target ≠ d) (sched : List CtxId) (hn : prog.length + 1 ≤ sched.count d) :
+    ∃ y, (run (initWorld [prog] fuel) ([.compile 0 0, .clone 0 d, .start d 0] ++ more ++ sched.map Op.step)).ctxs d = some y ∧
+      y.running = false ∧ y.result = some (runProgram fuel prog).outcome ∧ y.st = (runProgram fuel prog).st :=
+  clones_run_eq_runProgram fuel prog (stableDecls_of_wf prog hwf) d more hm sched hn
+
+example : ∃ y, (run (initWorld [overProg] 50) ([.compile 0 0, .start 0 0] ++ List.replicate 9 (.step 0))).ctxs 0 = some y ∧
+    y.running = false ∧ y.result = some (runProgram 50 overProg).outcome ∧ y.st = (runProgram 50 overProg).st ∧
+    y.funcs = collectFuncs overProg :=
+  world_run_eq_runProgram_wf 50 overProg (by decide +kernel) 9 (by decide)
 
 /-! ### non-vacuity of the schedule theorems -/
 
